@@ -12,6 +12,10 @@ from safeds_stubgen.stubs_generator._helper import NamingConvention  # noqa: F40
 SCHEMA = {
     "mypy.nodes.Argument": {"variable": "mp_nodes.Var", "kind": "ArgKind", "pos_only": "bool",
                             "initializer": "mp_nodes.Expression | None", "type_annotation": "mp_types.Type | None"},
+    "mypy.nodes.NameExpr": {"name": "str", "fullname": "str"},
+    "mypy.nodes.IntExpr": {"value": "int"},
+    "mypy.nodes.StrExpr": {"value": "str"},
+    "mypy.nodes.FloatExpr": {"value": "float"},
     "mypy.nodes.Var": {"is_self": "bool", "is_cls": "bool", "name": "str", "fullname": "str",
                        "type": "mp_types.Type | None", "explicit_self_type": "bool", "is_inferred": "bool"},
 }
